@@ -1,6 +1,7 @@
 import Driver.Codec
 import LopdfModel.Model.CMap
 import LopdfModel.Model.CMapParse
+import LopdfModel.Spec.CMapRender
 namespace Lopdf.Driver.C15
 open Lopdf Lopdf.Codec Lopdf.CMap
 
@@ -13,6 +14,7 @@ open Lopdf Lopdf.Codec Lopdf.CMap
   cmap_get    <sections> q <code>*      -> ok (-|u<hex>|panic@<site>)*        | err
   cmap_runs   <sections>                -> ok <len>:<lo>-<hi>=<target>,… ×4   | err
   cmap_decode <sections> q <bytes>      -> ok <scalar hex>* | panic@<site> | utf8-bom | err
+  cmap_render <sections>                -> ok <hex of the canonical writer's text (Spec/CMapRender.lean)>
   cmap_text_get / cmap_text_decode: the same with `<hex of the CMap stream text>` instead of <sections>
                  (the model parses the text with its own grammar model; `err` = parse error)
 -/
@@ -165,6 +167,10 @@ def handle (op : String) (args : List String) : Option String :=
   | "cmap_get" => some (viaSections "get" args)
   | "cmap_runs" => some (viaSections "runs" args)
   | "cmap_decode" => some (viaSections "decode" args)
+  | "cmap_render" =>
+    some <| match takeSections args with
+    | some (ss, []) => "ok " ++ hexTok (CMapRender.renderCMap ss)
+    | _ => "bad-op"
   | "cmap_text_get" => some (viaText "get" args)
   | "cmap_text_runs" => some (viaText "runs" args)
   | "cmap_text_decode" => some (viaText "decode" args)
